@@ -135,6 +135,97 @@ S = {
  "C20-2": ("C20", "/tmp/seed/C20/_seed/2", "s3/seed_demo_2_test.go", "TestSeedDemo2", "./s3/", ["C20"], "",
    "RenewLease 'recovers' from a 412 by matching the generation only",
    "A acquires, lapses, B takes over and releases, C acquires at generation 1 again, A renews its stale handle"),
+ # ---- second wave (three changes per property, different functions)
+ "C01-3": ("C01", "/tmp/seed2/C01/_seed/1", "seed_demo_1_test.go", "^(TestSeedDemo1)$", ".", ['C01', 'C04'], "",
+   'DB.Close resets syncState field by field and omits syncedToWALEnd',
+   'same-object Close/Open with app writes and a WAL shrink (TRUNCATE / last connection closed) while closed'),
+ "C01-4": ("C01", "/tmp/seed2/C01/_seed/2", "seed_demo_2_test.go", "^(TestSeedDemo2)$", ".", ['C01', 'C12'], "",
+   'Replica.syncOnce returns nil after waiting for an in-flight sync instead of doing its own pass',
+   'SyncAndWait/Close while another replica sync that sampled an older position is in flight'),
+ "C01-5": ("C01", "/tmp/seed2/C01/_seed/3", "seed_demo_3_test.go", "^(TestSeedDemo3)$", ".", ['C01'], "",
+   'Store.SyncDB skips Replica.Sync when the request itself created no new LTX file',
+   'DB monitor already produced the L0 file, replica has not uploaded it; `sync -wait` returns no_change'),
+ "C02-3": ("C02", "/tmp/seed2/C02/_seed/1", "seed_demo_1_test.go", "^(TestSeedDemo1)$", ".", ['C02', 'C06'], "",
+   'snapshotWALEndOffset: lastSyncedWALOffset fast path hoisted above the WAL-restart check',
+   'PASSIVE checkpoint restarts the WAL, the post-checkpoint copy fails (ENOSPC), commits continue, snapshot before the next successful sync'),
+ "C02-4": ("C02", "/tmp/seed2/C02/_seed/2", "seed_demo_2_test.go", "^(TestSeedDemo2)$", ".", ['C02', 'C01'], "",
+   'snapshot-type L0 syncs honour MaxSyncWALBytes',
+   'snapshot sync on a WAL longer than the budget whose frames an application PASSIVE checkpoint already backfilled while a reader pins the WAL'),
+ "C02-5": ("C02", "/tmp/seed2/C02/_seed/3", "seed_demo_3_test.go", "^(TestSeedDemo3)$", ".", ['C02', 'C09'], "",
+   'pageMap without txMap (pending slice): an uncommitted frame overwrites then deletes the committed offset',
+   'sync while a spilled/rolled-back transaction touches pages committed in the same batch'),
+ "C04-3": ("C04", "/tmp/seed2/C04/_seed/1", "seed_demo_1_test.go", "^(TestSeedDemo1_TwoWALRestartsWhileDown)$", ".", ['C04'], "",
+   'verifyWithExecutor passes the salts to detectFullCheckpoint in chronological order {prev, cur}',
+   'down: RESTART checkpoint, writes, RESTART checkpoint, fewer writes, all generations shorter than the old cursor'),
+ "C04-4": ("C04", "/tmp/seed2/C04/_seed/2", "seed_demo_2_test.go", "^(TestSeedDemo2_StopStartWithTruncateWhileStopped)$", ".", ['C04'], "",
+   'syncedToWALEnd survives Close when the final sync succeeded',
+   'IPC stop/start of the same object with writes + TRUNCATE + small write while stopped'),
+ "C04-5": ("C04", "/tmp/seed2/C04/_seed/3", "seed_demo_3_test.go", "^(TestSeedDemo3_RuntimeResetDuringReplicaHiccup)$", ".", ['C04', 'C05'], "",
+   'newSyncExecutor logs a failing checkDatabaseBehindReplica instead of returning it',
+   'run-time local-state reset and a transient listing failure on the very next sync'),
+ "C05-3": ("C05", "/tmp/seed2/C05/_seed/1", "seed_demo_1_test.go", "^(TestSeedC05_1_SnapshotAheadOfFailingL0Uploads)$", ".", ['C05'], "",
+   'Replica.calcPos takes the maximum over level 0 and the snapshot level',
+   'L0 uploads fail while commits continue, a snapshot upload succeeds during the outage, position recomputed'),
+ "C05-4": ("C05", "/tmp/seed2/C05/_seed/2", "seed_demo_2_test.go", "^(TestSeedC05_2_RestoreRidesOutMidStreamDownloadError)$", ".", ['C10', 'C05'], "",
+   'ResumableReader.Read does not advance the offset when an error arrives together with n>0 bytes',
+   'mid-stream download error whose failing Read also carries data'),
+ "C05-5": ("C05", "/tmp/seed2/C05/_seed/3", "seed_demo_3_test.go", "^(TestSeedC05_3_ListingErrorAfterLocalReset)$", ".", ['C05', 'C04'], "",
+   'checkDatabaseBehindReplica logs and ignores a listing error',
+   'local LTX state reset and the very next L0 listing fails'),
+ "C06-3": ("C06", "/tmp/seed2/C06/_seed/1", "seed_demo_1_test.go", "^(TestSeedDemo1_CompactionOfLargeBacklog)$", ".", ['C06'], "",
+   'compaction pass capped at 64 inputs after the min/max bookkeeping',
+   'more than 64 source files pending for one pass'),
+ "C06-4": ("C06", "/tmp/seed2/C06/_seed/2", "seed_demo_2_test.go", "^(TestSeedDemo2_SnapshotOfShrunkDatabase)$", ".", ['C06'], "",
+   'snapshotReader: commit = max(file size, walCommit)',
+   'grow, checkpoint, DELETE+VACUUM synced (WAL-only shrink), snapshot before the next checkpoint'),
+ "C06-5": ("C06", "/tmp/seed2/C06/_seed/3", "seed_demo_3_test.go", "^(TestSeedDemo3_CompactionAfterRestart)$", ".", ['C06'], "",
+   'Replica.MaxLTXFileInfo seeks to the replica position (filters on MinTXID): compacted levels look empty after a restart',
+   'levels populated, fresh DB object, replica sync sets the position, then Store.CompactDB'),
+ "C07-3": ("C07", "/tmp/seed2/C07/_seed/1", "seed_demo_1_test.go", "^(TestSeedDemo1_L0RetentionNonMonotonicAges)$", ".", ['C07'], "",
+   'EnforceL0RetentionByTime: break -> continue, counting loop dropped',
+   'L0 ages not monotonic in TXID order with compacted old files behind a young one'),
+ "C07-4": ("C07", "/tmp/seed2/C07/_seed/2", "seed_demo_2_test.go", "^(TestSeedDemo2_SnapshotRetentionAfterIdlePeriod)$", ".", ['C07'], "",
+   'EnforceSnapshotRetention: lastInfo becomes a defensive copy, the pointer comparison guard goes dead',
+   'two snapshots, cascading pass, L0 retention, idle period, second pass with every snapshot expired'),
+ "C07-5": ("C07", "/tmp/seed2/C07/_seed/3", "seed_demo_3_test.go", "^(TestSeedDemo3_L0RetentionAfterCompactionBacklog)$", ".", ['C07', 'C06'], "",
+   'compaction cap of 128 inputs over-claims the output name; L0 retention trusts it',
+   'backlog of >128 source files in one pass followed by L0 retention'),
+ "C09-3": ("C09", "/tmp/seed2/C09/_seed/1", "seed_demo_1_test.go", "^(TestSeedDemo1_TransactionCommitsAfterMidwaySync)$", ".", ['C09', 'C02', 'C01'], "",
+   'DB.sync takes the end of the copied WAL range from the reader position',
+   'sync while a write transaction has spilled frames after a commit in the same window; it then commits'),
+ "C09-4": ("C09", "/tmp/seed2/C09/_seed/2", "seed_demo_2_test.go", "^(TestSeedDemo2_SyncWhileTransactionSpills)$", ".", ['C09', 'C02'], "",
+   'pageMap without txMap: trailing uncommitted transaction deletes committed entries',
+   'sync during an open spilled transaction overlapping pages committed since the previous sync; rollback'),
+ "C09-5": ("C09", "/tmp/seed2/C09/_seed/3", "seed_demo_3_test.go", "^(TestSeedDemo3_SnapshotAfterShrink)$", ".", ['C06', 'C09'], "",
+   'snapshotReader: commit = max(commit, walCommit)',
+   'DELETE+VACUUM still WAL-only, snapshot before the next checkpoint'),
+ "C12-3": ("C12", "/tmp/seed2/C12/_seed/1", "seed_demo_1_test.go", "^(TestSeedDemo1_ConcurrentRegisterSamePath)$", ".", ['C12'], "",
+   'RegisterDB: second duplicate check and append in separate critical sections',
+   'two registrations of one path leaving Open() together under registry-lock contention'),
+ "C12-4": ("C12", "/tmp/seed2/C12/_seed/2", "seed_demo_2_test.go", "^(TestSeedDemo2_LateSyncAfterCloseBeforeFirstSync|TestSeedDemo2_StoreSyncRacesUnregister)$", ".", ['C12'], "",
+   'DB.Close fast path for a never-initialised database skips closed=true',
+   'Close before the first sync, then an operation that still reaches the object (SyncDB racing UnregisterDB)'),
+ "C12-5": ("C12", "/tmp/seed2/C12/_seed/3", "seed_demo_3_test.go", "^(TestSeedDemo3_StatusQueriesDuringSync)$", ".", ['C12'], "",
+   'SyncDiagnostic takes syncDiag.RLock recursively',
+   'a sync phase transition (Lock) between the two RLock calls: deadlock holding the executor semaphore'),
+ "C13-3": ("C13", "/tmp/seed2/C13/_seed/1", "seed_demo_1_test.go", "^(TestSeedDemo1_WALBoundedAfterFailedSnapshotUpload)$", ".", ['C13', 'C12'], "",
+   'DB.Snapshot closes the snapshot stream only after a successful upload',
+   'fault partway through a snapshot upload: the checkpoint read-lock is never released'),
+ "C13-4": ("C13", "/tmp/seed2/C13/_seed/2", "seed_demo_2_test.go", "^(TestSeedDemo2_WALBoundedWithChunkedSyncAfterBurst)$", ".", ['C13'], "",
+   'MinCheckpointPageN rule fires only when this sync grew the WAL (`newWALSize > origWALSize`)',
+   'small MaxSyncWALBytes, one earlier burst, then trickle writes'),
+ "C13-5": ("C13", "/tmp/seed2/C13/_seed/3", "seed_demo_3_test.go", "^(TestSeedDemo3_IdleSilentAfterBurstPastTruncateThreshold)$", ".", ['C13'], "",
+   'origWALSize falls back to the WAL file size whenever the previous sync did not reach the end',
+   'burst exceeding TruncatePageN between two syncs, then idle'),
+ "C15-3": ("C15", "/tmp/seed2/C15/_seed/1", "seed_demo_1_test.go", "^(TestSeedDemo1_TimestampRestoreAfterL0Retention)$", ".", ['C15'], "",
+   'CalcRestorePlan resolves the timestamp to a TXID via level 0 (first L0 at/after T minus one)',
+   'compaction + L0 retention, T inside the pruned range; T before the first backup'),
+ "C15-4": ("C15", "/tmp/seed2/C15/_seed/2", "seed_demo_2_test.go", "^(TestSeedDemo2_TransactionReplicatedDuringRestore)$", ".", ['C15'], "",
+   "Restore treats a timestamp after the newest backup as 'latest'",
+   'a file replicated between the TimeBounds check and the plan listings'),
+ "C15-5": ("C15", "/tmp/seed2/C15/_seed/3", "seed_demo_3_test.go", "^(TestSeedDemo3_SnapshotRequestedDuringSync)$", ".", ['C15'], "",
+   'snapshot stamped with time.Now() captured before waiting on the executor semaphore',
+   'a sync in flight produces TXID N with a later stamp; T in (stamp, t_N]'),
 }
 
 
